@@ -32,9 +32,9 @@ def build_props(PROPS):
         level_note='Assumed: C-locale iscntrl (A1). For inputs containing NUL the scan stops there (outside the property). 822: the byte at end is "@" or NUL (true at every call site). That "dead is absorbing" (so a dead ghost state means no extension is accepted) is proved in the lemma job of C12.',
         trusted_base=TB_COMMON, technique=TECH)
     PROPS['C03'] = dict(
-        level='proof', quick=ALL(['utf8_decode_next', 'is_6531_local']), thorough=[],
+        level='proof', quick=ALL(['utf8_decode_next', 'is_6531_local']), thorough=ALL(['is_6531_local+wf']),
         level_text='utf8_decode_next is proved against Unicode Table 3-7 for every byte tuple at every offset (loop-free, complete). is_6531_local (decoder inlined) is proved by loop contract: accept => every byte was consumed as one well-formed sequence contiguous with the previous one and the 6531 automaton over the decoded characters accepts; reject => automaton dead / non-accepting, or the decoder stopped inside the input.',
-        level_note='Input length <= 2^31-16 (decoder stores lengths in int). The reject direction for EEAV_LPART_INVALID_UTF8 is composed from two obligations (decoder job: error <=> no well-formed sequence at the index; scanner job: INVALID_UTF8 only when the decoder stopped before the end of the input) rather than one. A1.',
+        level_note='Input length <= 2^31-16 (decoder stores lengths in int). In the quick tier the reject direction for EEAV_LPART_INVALID_UTF8 is composed from two obligations (decoder job: error <=> no well-formed sequence at the index; scanner job: INVALID_UTF8 only when the decoder stopped before the end of the input, at a non-ASCII byte); the thorough tier discharges it as one postcondition of the scanner (job is_6531_local+wf: INVALID_UTF8 => no well-formed sequence of Table 3-7 starts at the position reached; 12 min with --refine-arrays). A1.',
         trusted_base=TB_COMMON, technique=TECH)
     PROPS['C04'] = dict(
         level='proof', quick=ALL(['is_ascii_domain', 'is_utf8_domain']), thorough=ALL(['is_utf8_domain@idn', 'is_utf8_domain@idnkit']),
